@@ -59,6 +59,7 @@ func MakeConfig(profile, tier string, seed int64, idx int) Config {
 		cfg.LiveConsumers = 2
 		cfg.Votes = true
 		cfg.HandshakeDelayMax = 3
+		cfg.Hostile = idx%2 == 1
 	case "lifecycle":
 		cfg.LiveConsumers = 1
 		cfg.HandshakeDelayMax = 4
@@ -246,6 +247,9 @@ func (w *World) syncShadow() {
 // MainLoop runs the generated workload.
 func (w *World) MainLoop() {
 	w.menu = menuFor(w.Cfg.Profile)
+	if w.Cfg.Profile == "slash" {
+		w.installSlashHooks()
+	}
 	w.setupLive()
 	for w.Step = 1; w.Step <= w.Cfg.Steps; w.Step++ {
 		if w.P.Halted {
